@@ -607,6 +607,7 @@ func c10r8(c *Ctx) {
 	if n == 0 {
 		c.undec(R, "store.Getvhash call sites", "none found")
 	}
+	c10r8b(c)
 }
 
 // aliasOf: b := a.Payload style alias (one definition whose root is a).
@@ -700,6 +701,7 @@ func c11r11(c *Ctx) {
 	default:
 		c.undec(R, f.Key, why)
 	}
+	c11r11b(c)
 }
 
 func isSpaceOnly(f *prog.Func) bool {
